@@ -27,11 +27,6 @@ import (
 	"github.com/projectcalico/calico/verifkit/ev"
 )
 
-// c06SigNestedNot is the signature of the finding "!( !x )": a negated parenthesised group
-// whose content is itself a negation is canonically formatted as "!!x", which parses back
-// to "x" (different canonical text and identity hash).
-const c06SigNestedNot = "C06-not-of-parenthesised-not"
-
 type c06Node struct {
 	K    string     `json:"k"`
 	L    string     `json:"l,omitempty"`
@@ -79,7 +74,7 @@ func c06Value(t *rapid.T, label string) string {
 }
 
 func c06Label(t *rapid.T) string {
-	if rapid.IntRange(0, 79).Draw(t, "labelLong") == 0 {
+	if rapid.IntRange(0, 79).Draw(t, "labelLong") == 79 {
 		return c06LongLabel
 	}
 	return rapid.SampledFrom(c06Labels).Draw(t, "label")
@@ -224,9 +219,8 @@ func c06Collect(n *c06Node, labels, vals map[string]bool, leaves *[]*c06Node) {
 
 type c06Renderer struct {
 	t          *rapid.T
-	plain      bool // no redundant parentheses / bang pairs (used to steer off the known finding)
 	classes    map[string]bool
-	nestedNot  bool // produced "! ( <something whose parse is a negation> )"
+	nestedNot  bool // produced "! ( <something whose parse is a negation> )" (layout of a past finding)
 }
 
 type c06Text struct {
@@ -336,7 +330,7 @@ func (r *c06Renderer) render(n *c06Node) c06Text {
 	case "not":
 		x := r.render(n.Kids[0])
 		nb := 1
-		if !r.plain && rapid.IntRange(0, 7).Draw(r.t, "tripleBang") == 0 {
+		if rapid.IntRange(0, 7).Draw(r.t, "tripleBang") == 0 {
 			nb = 3
 			r.classes["bang-chain"] = true
 		}
@@ -345,7 +339,7 @@ func (r *c06Renderer) render(n *c06Node) c06Text {
 			pre += "!" + r.ws()
 		}
 		wrap := !x.atom
-		if x.atom && !r.plain && rapid.IntRange(0, 3).Draw(r.t, "parenNotOperand") == 0 {
+		if x.atom && rapid.IntRange(0, 3).Draw(r.t, "parenNotOperand") == 0 {
 			wrap = true
 		}
 		if wrap {
@@ -394,7 +388,7 @@ func (r *c06Renderer) render(n *c06Node) c06Text {
 	default:
 		out = c06Text{s: r.leaf(n), atom: true}
 	}
-	if !r.plain {
+	{
 		switch rapid.IntRange(0, 11).Draw(r.t, "decorate") {
 		case 0, 1:
 			out = r.paren(out)
@@ -524,26 +518,6 @@ func c06FmtMap(m map[string]string) string {
 	return sb.String()
 }
 
-// c06HasNestedNot reports whether canonical text contains two adjacent '!' outside string
-// literals, i.e. the parser built a negation whose operand is itself a negation.
-func c06HasNestedNot(canon string) bool {
-	var quote byte
-	for i := 0; i < len(canon); i++ {
-		c := canon[i]
-		switch {
-		case quote != 0:
-			if c == quote {
-				quote = 0
-			}
-		case c == '"' || c == '\'':
-			quote = c
-		case c == '!' && i+1 < len(canon) && canon[i+1] == '!':
-			return true
-		}
-	}
-	return false
-}
-
 // c06Abbrev compresses runs of >=32 equal bytes (the maximum-length labels) for display.
 func c06Abbrev(s string) string {
 	var sb strings.Builder
@@ -573,7 +547,7 @@ func c06Short(s string) string {
 // c06CheckString applies the statement's oracle to one input string.  ast may be nil (then
 // the independent evaluator is not consulted).  Returns whether the parser accepted s and
 // how many maps evaluated true / false.
-func c06CheckString(t *rapid.T, rec *ev.Recorder, s string, ast *c06Node, maps []map[string]string) (accepted bool, nTrue, nFalse int) {
+func c06CheckString(t *rapid.T, s string, ast *c06Node, maps []map[string]string) (accepted bool, nTrue, nFalse int) {
 	verr := selector.Validate(s)
 	p, perr := selector.Parse(s)
 	if (verr == nil) != (perr == nil) {
@@ -593,17 +567,10 @@ func c06CheckString(t *rapid.T, rec *ev.Recorder, s string, ast *c06Node, maps [
 	if verr2 := selector.Validate(canon); verr2 != nil {
 		t.Fatalf("Validate rejects canonical text that Parse accepts:\n  input:     %s\n  canonical: %s\n  error:     %v", c06Short(s), c06Short(canon), verr2)
 	}
-	skipStability := false
-	if c06HasNestedNot(canon) && ev.Known(c06SigNestedNot) {
-		// Known finding: text/hash stability is not asserted for exactly this signature;
-		// everything else (parse-back, Validate, meaning) still is.
-		rec.Excluded(c06SigNestedNot)
-		skipStability = true
-	}
-	if !skipStability && p2.String() != canon {
+	if p2.String() != canon {
 		t.Fatalf("canonical text is not stable:\n  input:            %s\n  canonical:        %s\n  parsed-back text: %s", c06Short(s), c06Short(canon), c06Short(p2.String()))
 	}
-	if !skipStability && p2.UniqueID() != p.UniqueID() {
+	if p2.UniqueID() != p.UniqueID() {
 		t.Fatalf("identity hash changes through canonical text:\n  input:     %s\n  canonical: %s\n  UniqueID %s vs %s", c06Short(s), c06Short(canon), p.UniqueID(), p2.UniqueID())
 	}
 	for _, m := range maps {
@@ -643,23 +610,13 @@ type c06Case struct {
 	nodes  int
 	leaves int
 	cls    map[string]bool
-	nested bool
 }
 
-func c06GenCase(t *rapid.T, rec *ev.Recorder) c06Case {
+func c06GenCase(t *rapid.T) c06Case {
 	depth := rapid.SampledFrom([]int{0, 1, 1, 2, 2, 2, 3, 3, 4, 5}).Draw(t, "maxDepth")
 	ast := c06GenNode(t, depth, true)
 	r := &c06Renderer{t: t, classes: map[string]bool{}}
 	txt := r.render(ast)
-	if r.nestedNot && ev.Known(c06SigNestedNot) {
-		// Known finding: steer away from exactly this layout, keep the expression.
-		rec.Excluded(c06SigNestedNot)
-		r = &c06Renderer{t: t, plain: true, classes: map[string]bool{}}
-		txt = r.render(ast)
-		if r.nestedNot {
-			t.Fatalf("HARNESS-GAP: plain rendering still produced a negated parenthesised negation")
-		}
-	}
 	if r.nestedNot {
 		r.classes["not-of-parenthesised-not"] = true
 	}
@@ -695,7 +652,7 @@ func c06GenCase(t *rapid.T, rec *ev.Recorder) c06Case {
 	maps = append(maps, map[string]string{})
 	var sb strings.Builder
 	nodes := c06Shape(ast, &sb)
-	return c06Case{ast: ast, text: s, maps: maps, shape: sb.String(), nodes: nodes, leaves: len(leaves), cls: r.classes, nested: r.nestedNot}
+	return c06Case{ast: ast, text: s, maps: maps, shape: sb.String(), nodes: nodes, leaves: len(leaves), cls: r.classes}
 }
 
 func TestVerifC06Grammar(t *testing.T) {
@@ -706,14 +663,11 @@ func TestVerifC06Grammar(t *testing.T) {
 		"values never contain both quote characters (no selector text can express such a value)")
 	defer rec.Write()
 	rapid.Check(t, func(t *rapid.T) {
-		c := c06GenCase(t, rec)
-		ok, nT, nF := c06CheckString(t, rec, c.text, c.ast, c.maps)
+		c := c06GenCase(t)
+		ok, nT, nF := c06CheckString(t, c.text, c.ast, c.maps)
 		if !ok {
 			_, perr := selector.Parse(c.text)
 			t.Fatalf("parser rejects an expression of the documented grammar: %s\n  error: %v", c06Short(c.text), perr)
-		}
-		if p, err := selector.Parse(c.text); err == nil && c06HasNestedNot(p.String()) != c.nested {
-			t.Fatalf("HARNESS-GAP: renderer's nested-negation tracking (%v) disagrees with canonical text %s of %s", c.nested, c06Short(p.String()), c06Short(c.text))
 		}
 		classes := make([]string, 0, len(c.cls)+2)
 		for k := range c.cls {
@@ -801,7 +755,7 @@ func TestVerifC06Garbage(t *testing.T) {
 		switch rapid.IntRange(0, 9).Draw(t, "source") {
 		case 0, 1, 2, 3, 4, 5:
 			src = "mutated"
-			c := c06GenCase(t, rec)
+			c := c06GenCase(t)
 			s = c06Mutate(t, c.text)
 		case 6, 7, 8:
 			src = "soup"
@@ -822,7 +776,7 @@ func TestVerifC06Garbage(t *testing.T) {
 		for i := 0; i < 16; i++ {
 			maps = append(maps, c06RandomMap(t, c06GenericLabels, c06GenericVals, c06GenericVals))
 		}
-		ok, _, _ := c06CheckString(t, rec, s, nil, maps)
+		ok, _, _ := c06CheckString(t, s, nil, maps)
 		verdict := "rejected"
 		if ok {
 			verdict = "accepted"
@@ -838,15 +792,18 @@ func TestVerifC06Garbage(t *testing.T) {
 	})
 }
 
-// TestVerifKnownC06NestedNot is the fixed reproduction of finding C06-not-of-parenthesised-not
-// (not matched by the unit's run regex; the driver runs it to confirm the finding is still
-// present).  It fails while the finding reproduces.
-func TestVerifKnownC06NestedNot(t *testing.T) {
+// TestVerifC06RegressionNestedNot pins the inputs of a past finding: "!(!x)" used to be
+// formatted as "!!x", which parses back to "x" (canonical text and identity hash changed
+// through a round trip).
+func TestVerifC06RegressionNestedNot(t *testing.T) {
 	ev.Quiet()
-	for _, s := range []string{"!(!has(a))", "!(!(a == 'b' && has(c)))", "!((!all()))"} {
+	for _, s := range []string{"!(!has(a))", "!(!(a == 'b' && has(c)))", "!((!all()))", "!(!(!has(a)))", "((b=='')&&!(!b in{}))"} {
 		p, err := selector.Parse(s)
 		if err != nil {
 			t.Fatalf("Parse(%q): %v", s, err)
+		}
+		if verr := selector.Validate(s); verr != nil {
+			t.Fatalf("Validate(%q): %v but Parse accepts", s, verr)
 		}
 		p2, err := selector.Parse(p.String())
 		if err != nil {
@@ -854,6 +811,11 @@ func TestVerifKnownC06NestedNot(t *testing.T) {
 		}
 		if p2.String() != p.String() || p2.UniqueID() != p.UniqueID() {
 			t.Errorf("input %q: canonical text %q parses back to %q (UniqueID %s vs %s)", s, p.String(), p2.String(), p.UniqueID(), p2.UniqueID())
+		}
+		for _, m := range []map[string]string{{}, {"a": "b"}, {"a": "b", "c": "d"}, {"b": ""}, {"c": ""}} {
+			if p.Evaluate(m) != p2.Evaluate(m) {
+				t.Errorf("input %q labels %v: original matches=%v, parsed-back matches=%v", s, m, p.Evaluate(m), p2.Evaluate(m))
+			}
 		}
 	}
 }
